@@ -5,7 +5,7 @@
 From Coq Require Import ZArith QArith Qabs List Bool Lia.
 Import ListNotations.
 Require Import NV.C31.Prim NV.C31.Gen_Index NV.C31.Model.
-Require Import NV.C31.Proofs NV.C31.ProofsQ NV.C31.ProofsFlat NV.C31.ProofsND.
+Require Import NV.C31.Proofs NV.C31.ProofsQ NV.C31.ProofsFlat NV.C31.ProofsND NV.C31.ProofsRef.
 Open Scope Z_scope.
 
 (* ---- parent o children = id.  For every well-formed grid description (product of regular and
@@ -200,6 +200,23 @@ Theorem C31_flat_nest_hierarchical :
     nest_enc (wgts ++ [s]) idx 0 =
     nest_enc wgts (map2 Z.div idx s) 0 * zprod s + nest_j idx (repeat 1 d) s 0.
 Proof. intros d wgts s idx W L P Li. exact (nest_step_gen d wgts s idx W L P Li 0). Qed.
+
+(* ---- refined_indices(): for axes of any number, shapes, splits and non-negative paddings, the box
+   that refined_indices() returns (regular: slice(0, sh); open: slice(pp, sh - pp); product grids:
+   outer product) contains exactly the index vectors that lie in the level and are marked by
+   _is_index_refined on every axis -- i.e. exactly the vectors the partition theorem quantifies
+   over; and _is_index_refined is true on every returned vector. *)
+Theorem C31_refined_indices_exact :
+  forall axes idx,
+    Forall (fun a => forall p, a_pad a = Some p -> 0 <= p) axes ->
+    In idx (refined_indices axes) <-> Forall2 refined axes idx.
+Proof. exact refined_indices_spec. Qed.
+
+Theorem C31_refined_indices_marked :
+  forall axes idx,
+    Forall (fun a => forall p, a_pad a = Some p -> 0 <= p) axes ->
+    In idx (refined_indices axes) -> is_index_refined axes idx = true.
+Proof. exact refined_indices_marked. Qed.
 
 (* ---- non-vacuity: a concrete product grid (regular 2-D x open 1-D, depth 2) satisfies the
    hypotheses of C31_parent_child at both levels, and the nest weights of a regular grid satisfy
